@@ -1,7 +1,7 @@
 (* C32: what each opcode is SPECIFIED to compute, over unbounded arithmetic (N, no machine
    words, no loops), and the executable checker applied to the implementation's observations.
    Byte strings denote big-endian naturals ([be_val]); a byte-string result is specified by
-   its VALUE plus an encoding constraint (minimal, or fixed List.length) instead of by an encoding
+   its VALUE plus an encoding constraint (minimal, or fixed length) instead of by an encoding
    algorithm, so that this file shares no algorithm with model/AvmArith.v.  No proofs here. *)
 From Coq Require Import NArith ZArith List Bool String.
 From Verif.lib Require Import Term.
@@ -211,7 +211,9 @@ Definition sv_of_term (t : term) : option sv :=
   | TB b => Some (B b)
   | _ => None
   end.
-Definition wf_sv (v : sv) : bool := match v with U n => n <? W | B l => bytes_ok l end.
+(* operands the evaluator can hold: 64-bit words; byte strings of at most maxStringSize = 4096 bytes *)
+Definition wf_sv (v : sv) : bool :=
+  match v with U n => n <? W | B l => bytes_ok l && (blen l <=? 4096) end.
 Definition term_of_sv (v : sv) : term := match v with U n => tn n | B l => TB l end.
 Definition term_of_res (r : res) : term :=
   match r with Ok st => TL (TS "ok" :: map term_of_sv st) | Err => TL [TS "err"] end.
